@@ -675,6 +675,9 @@ func c10Child() int {
 			for i := 0; i < vlib.Scale(60, 300); i++ {
 				c10NodeRace(ev, driver, s, i)
 			}
+			for i := 0; i < vlib.Scale(30, 200); i++ {
+				c10InactiveRace(ev, driver, s, i)
+			}
 			c10HotKey(ev, driver, s, 48, 20)
 			c10HotKey(ev, driver, s, 128, 12)
 			cleanup()
@@ -682,6 +685,9 @@ func c10Child() int {
 				for i := 0; i < vlib.Scale(6, 24); i++ {
 					c10PoolRound(ev, driver, tr, i)
 				}
+			}
+			for i := 0; i < vlib.Scale(10, 60); i++ {
+				c10UpdatesWhileCreditsFail(ev, driver, i)
 			}
 			// other concurrent workloads of this harness, for the race detector
 			for i := 0; i < vlib.Scale(6, 12); i++ {
